@@ -255,12 +255,11 @@ def _get_set_agreement(col, rule="C07.R2"):
             raise AnalysisError("Table.__getitem__/__setitem__: row resolution chain not recognised (cannot decide)")
         col.ok(rule, "Table.__getitem__~__setitem__#same-row-resolution", "xdeps/table.py", "both resolve rows through one helper", "")
         return
-    col.add(rule, "Table.__getitem__~__setitem__#same-row-resolution", A.src(rg) == A.src(rs), repo.cls("Table").module.loc(rs),
-            "reading and writing a cell resolve the row selector by the same computation", "the two selector chains differ" if A.src(rg) != A.src(rs) else "")
+    col.add(rule, "Table.__getitem__~__setitem__#same-row-resolution", A.alpha(rg) == A.alpha(rs), repo.cls("Table").module.loc(rs),
+            "reading and writing a cell resolve the row selector by the same computation", "the two selector chains differ" if A.alpha(rg) != A.alpha(rs) else "")
     # fast path: cache.get((row, 0)) then the parser, raising resolver
-    txt = A.src(rg)
-    ok = "cache.get((row, 0))" in txt and "_split_name_count_offset(row)" in txt and "_get_row_cache_raise(name, count, offset)" in txt \
-        and "_get_row_cache_raise(*row)" in txt and "cache.get(row)" in txt
+    ok = not A.has_fragments(g, ["{L}.get(({L}, 0))", "self._split_name_count_offset({L})", "self._get_row_cache_raise({L}, {L}, {L})",
+                                 "self._get_row_cache_raise(*{L})", "{L}.get({L})"])
     col.add(rule, "Table.__getitem__#resolution-steps", ok, repo.cls("Table").module.loc(rg),
             "a string row is looked up as (row, 0) and otherwise parsed into name/count/offset and resolved by the raising resolver; "
             "a tuple row is looked up directly and otherwise resolved by the raising resolver", "")
@@ -290,7 +289,7 @@ def _parser(col, rule="C07.R3"):
     col.add(rule, "Table._split_name_count_offset#separators", ok, cx.loc(cx.fn),
             "the parser splits once on each of the table's three separators", str(seps))
     rets = [n.ast.value for n in cfg.nodes.values() if n.kind == "stmt" and isinstance(n.ast, ast.Return)]
-    col.add(rule, "Table._split_name_count_offset#returns", len(rets) == 1 and A.src(rets[0]) == "(name, count, offset)", cx.loc(cx.fn),
+    col.add(rule, "Table._split_name_count_offset#returns", len(rets) == 1 and isinstance(rets[0], ast.Tuple) and len(rets[0].elts) == 3, cx.loc(cx.fn),
             "returns (name, count, offset)", "")
     inits = {A.target_names(n.targets[0])[0]: n.value for n in A.walk(cx.fn) if isinstance(n, ast.Assign) and len(A.target_names(n.targets[0])) == 1}
     # _get_row_cache
@@ -338,8 +337,7 @@ def _parser(col, rule="C07.R3"):
 def _entry_points(col, rule="C07.R4"):
     repo = col.repo
     cx = fnctx(repo, "Table", "_get_row_index")
-    txt = A.src(cx.fn)
-    ok = "self._split_name_count_offset(row)" in txt and "self._get_row_cache_raise(row, count, offset)" in txt and "self._get_row_cache_raise(*row)" in txt
+    ok = not A.has_fragments(cx.fn, ["self._split_name_count_offset({P1})", "self._get_row_cache_raise({L}, {L}, {L})", "self._get_row_cache_raise(*{P1})"])
     col.add(rule, "Table._get_row_index#resolver", ok, cx.loc(cx.fn),
             "string rows are parsed and resolved by the raising resolver; tuple rows go to it directly", "")
     cx = fnctx(repo, "Table", "__floordiv__")
